@@ -9,7 +9,7 @@ CONSTANTS
   PeDom = {5000}
   SeDom = {3600}
   MlDom = {12, 20}
-  CtDom = {0, 10, 20}
+  CtDom = {0, 10}
 INIT InitProd
 NEXT Next
 INVARIANT Inv
